@@ -60,7 +60,7 @@ def _format_and_process_date(format_code, date, tmp, process_next):
         else format_code(date)
     )
     if process_next:
-        with suppress(ValueError):
+        with suppress(ValueError, roman.RomanError):
             res = process_next(res)
         process_next = None
     tmp.append(res)
